@@ -304,3 +304,24 @@ fn cmd_crash(args: &[String]) -> i32 {
     );
     exit
 }
+
+#[allow(dead_code)]
+pub fn debug_block_check(data: &[u8]) -> String {
+    use ckb_types::{packed, prelude::*};
+    match packed::SyncMessageReader::from_compatible_slice(data).map(|m| m.to_enum()) {
+        Ok(packed::SyncMessageUnionReader::SendBlock(r)) => {
+            let b = r.to_entity().block();
+            let v = b.clone().into_view();
+            format!(
+                "number {} txroot hdr {:#x} calc {:#x} extra hdr {:#x} calc {:#x} extra_fields {}",
+                v.number(),
+                v.transactions_root(),
+                v.calc_transactions_root(),
+                v.extra_hash(),
+                v.calc_extra_hash().extra_hash(),
+                b.count_extra_fields()
+            )
+        }
+        _ => "not a SendBlock".into(),
+    }
+}
